@@ -23,7 +23,10 @@ LEVEL_TEXT = ('static analysis: (D1) export_bed interpreted on one segment per c
               'per sample id over identical bins; a different number of bins, differing chromosome:start-end:gene labels (also permuted) or a '
               "duplicate sample id raise; fmt_jtv / fmt_cdt rows are the label plus every sample's value; (D6) the stated sample sex reaches the "
               'export through verify_sample_sex (C15 rule); (D5) the sex / PAR / ploidy flags reach same-role parameters from the export commands'
-              ' down to the calling functions. Does not decide the text layout of INFO beyond the named fields.')
+              ' down to the calling functions. (CLI) the `export bed / vcf / seg` command line(s), through a model of argparse built from the '
+              'declarations in commands.py and the real _cmd_ body interpreted with readers, library step and writers stubbed: ploidy, reference '
+              "sex, stated sample sex, PAR genome, label (-i / --label-genes / the file's sample id), --show and every input file reach the "
+              'export functions as given. Does not decide the text layout of INFO beyond the named fields.')
 TECHNIQUE = "abstract interpretation of the export functions (row classes x flags, f-string fields with holes); dominance; role-flow"
 
 EXP = "cnvlib.export"
@@ -209,16 +212,19 @@ def d3(chk, prog):
     tb.done("SEG rows are not (ID, chrom, start+1, end, [probes], log2)")
     fe = prog.fn(f"{EXP}.export_seg")
     tb2 = Table(chk, "seg-columns", "export_seg: every file's rows under that file's sample id, in file order (1..3 files, with an empty table in any position)", fe.loc(), fe.qn)
-    for sizes, no_probes in (([2], ()), ([0], ()), ([2, 1], ()), ([0, 1], ()), ([2, 0, 1], ()), ([1, 2, 0], ()), ([1, 1, 1], ()), ([2, 1], (1,)), ([1, 2, 1], (0,)), ([1, 1], (0, 1))):
+    # (the last two: files that carry the same sample id -- same base name in two directories -- are still listed one after the other)
+    for sizes, no_probes, ids in (([2], (), None), ([0], (), None), ([2, 1], (), None), ([0, 1], (), None), ([2, 0, 1], (), None), ([1, 2, 0], (), None), ([1, 1, 1], (), None), ([2, 1], (1,), None),
+                                  ([1, 2, 1], (0,), None), ([1, 1], (0, 1), None), ([2, 1], (), ["S", "S"]), ([1, 1, 2], (), ["S", "T", "S"])):
         W.reset()
         files = [f"f{i}.cns" for i in range(len(sizes))]
+        ids = ids or [f"S{i}" for i in range(len(sizes))]
         tables = {}
         for i, (f, n) in enumerate(zip(files, sizes)):
             rows = [dict(chromosome="chr1", start=Term.sym(f"s{i}_{j}", 0, INF, True), end=Term.sym(f"e{i}_{j}", 0, INF, True), gene="-", log2=Term.sym(f"v{i}_{j}"), probes=3 + j) for j in range(n)]
             if i in no_probes:
                 for r in rows:
                     del r["probes"]          # a segment table without probe counts (e.g. imported segments)
-            g = make_ga("CopyNumArray", rows, {"sample_id": f"S{i}"}, exact=True)
+            g = make_ga("CopyNumArray", rows, {"sample_id": ids[i]}, exact=True)
             if not rows:
                 g.data = DF({c: Vec([], aligned=True) for c in ("chromosome", "start", "end", "gene", "log2", "probes")}, 0)
                 g.data.exact = True
@@ -226,10 +232,10 @@ def d3(chk, prog):
         model = Model()
         model.prims["cnvlib.cmdutil.read_cna"] = lambda it, fname, *a, **k: tables[fname]
         it = Interp(prog, model)
-        out = tb2.guard(lambda: it.run(fe.qn, [files, False]), f"table sizes {sizes}")
+        out = tb2.guard(lambda: it.run(fe.qn, [files, False]), f"table sizes {sizes} ids {ids}")
         if out is None:
             continue
-        want = [(f"S{i}", f"s{i}_{j}+1") for i, n in enumerate(sizes) for j in range(n)]
+        want = [(ids[i], f"s{i}_{j}+1") for i, n in enumerate(sizes) for j in range(n)]
         got = None
         if isinstance(out, DF) and "ID" in out.cols and "loc.start" in out.cols:
             got = list(zip(out.cols["ID"].v, out.cols["loc.start"].v))
@@ -239,7 +245,7 @@ def d3(chk, prog):
         if ok and any(m is not None for m in want_marks):
             marks = list(out.cols["num.mark"].v) if "num.mark" in out.cols else None
             ok = marks is not None and len(marks) == len(want_marks) and all((m is None and w is None) or (w is not None and same(m, w)) for m, w in zip(marks, want_marks))
-        tb2.cell(ok, dict(table_sizes=sizes, tables_without_probes=list(no_probes), num_mark=[repr(x) for x in out.cols["num.mark"].v] if isinstance(out, DF) and "num.mark" in out.cols else None, got=[(a, repr(b)) for a, b in got] if got is not None else repr(out)[:80], want=want))
+        tb2.cell(ok, dict(table_sizes=sizes, sample_ids=ids, tables_without_probes=list(no_probes), num_mark=[repr(x) for x in out.cols["num.mark"].v] if isinstance(out, DF) and "num.mark" in out.cols else None, got=[(a, repr(b)) for a, b in got] if got is not None else repr(out)[:80], want=want))
     tb2.done("export seg does not list every sample's segments (with their probe counts) under that sample's own id, in file order")
 
 
@@ -347,6 +353,8 @@ def run(chk):
 
 _E = "cnvlib/export.py"
 MUTANTS = [
+    dict(name="cli: export bed swaps sample sex and reference sex", file="cnvlib/commands.py", old="            args.ploidy,\n            args.male_reference,\n            args.diploid_parx_genome,\n            is_sample_female,\n            label,", new="            args.ploidy,\n            is_sample_female,\n            args.diploid_parx_genome,\n            args.male_reference,\n            label,"),
+    dict(name="cli: export bed keeps only the last input file", file="cnvlib/commands.py", old="        bed_tables.append(tbl)\n    table = pd.concat(bed_tables)", new="        bed_tables = [tbl]\n    table = pd.concat(bed_tables)"),
     dict(name="bed: show ploidy keeps only gains", file=_E, old='        out = out[out["ncopies"] != ploidy]', new='        out = out[out["ncopies"] > ploidy]'),
     dict(name="seeded C20b: variant filter by reference copies", file=_E, old="        exp_copies = call.absolute_expect(segments, ploidy, diploid_parx_genome, is_sample_female)\n        out = out[", new="        exp_copies = call.absolute_reference(segments, ploidy, diploid_parx_genome, is_haploid_x_reference)\n        out = out["),
     dict(name="bed: 1-based start", file=_E, old='    out = segments.data.reindex(columns=["chromosome", "start", "end"])\n    out["label"]', new='    out = segments.data.reindex(columns=["chromosome", "start", "end"])\n    out["start"] += 1\n    out["label"]'),
